@@ -439,17 +439,22 @@ class Engine(Interp):
                 raise Unsupported(f"arity mismatch calling {inst.name}: {len(args)} vs {body.arg_count}")
         # memoisation for pure scalar functions
         mkey = None
-        sig = None if st.res else self.sig_of(st, args)
+        deep = bool(ctx.summary_fns and ctx.summary_fns(inst))
+        sig = None if st.res else self.sig_of(st, args, deep)
         if sig is not None:
             mkey = (inst.id, sig)
             hit = ctx.memo.get(mkey)
             if hit is not None:
-                tmpl, tst, obls = hit
+                tmpl, tst, obls, muts = hit
                 if ctx.quiet == 0:
                     for o in obls:
                         o.quiet = False
                 if tmpl is None:
                     return []
+                for (ai, mt) in muts:
+                    p_ = args[ai]
+                    self.store_at_strong(st, p_.key, p_.proj, self.instantiate(st, mt, tst))
+                ctx.memo_hits = getattr(ctx, "memo_hits", 0) + 1
                 return [(self.instantiate(st, tmpl, tst), st)]
         fid = ctx.frame_id(parent_fr.id if parent_fr else 0, site, inst.id)
         fr = Frame(fid, inst, body, parent_fr, (parent_fr.depth + 1) if parent_fr else 0)
@@ -464,36 +469,67 @@ class Engine(Interp):
             out = self.run_mixed(fr, st, budget)
             if out is None:
                 if mkey:
-                    ctx.memo[mkey] = (None, None, ctx.obl[n_obl0:])
+                    ctx.memo[mkey] = (None, None, ctx.obl[n_obl0:], [])
                 return []
             rst = out
             ret = rst.store.get((fid, 0), UNIT)
             for k in [k for k in rst.store if k[0] == fid]:
                 del rst.store[k]
             if mkey:
-                ctx.memo[mkey] = (ret, self.snapshot(rst, ret), ctx.obl[n_obl0:])
+                snap = self.snapshot(rst, ret)
+                muts = []
+                ok_m = True
+                for ai, a in enumerate(args):
+                    if type(a) is Pt and a.mut and a.key is not None:
+                        try:
+                            mv = self.load(rst, a.key, a.proj)
+                            self._sig(rst, mv, True, 1)
+                            self.snapshot(rst, mv, snap)
+                            muts.append((ai, mv))
+                        except (Unsupported, Diverge):
+                            ok_m = False
+                if ok_m:
+                    try:
+                        self._sig(rst, ret, True, 0)
+                        ctx.memo[mkey] = (ret, snap, ctx.obl[n_obl0:], muts)
+                    except Unsupported:
+                        pass
             return [(ret, rst)]
         finally:
             ctx.stack.pop()
 
-    def sig_of(self, st, args):
+    def sig_of(self, st, args, deep=False):
         try:
-            return tuple(self._sig(st, a) for a in args)
-        except Unsupported:
+            keys = [a.key for a in args if type(a) is Pt]
+            if len(keys) != len(set(keys)):
+                return None
+            return tuple(self._sig(st, a, deep) for a in args)
+        except (Unsupported, Diverge):
             return None
 
-    def _sig(self, st, v):
+    def _sig(self, st, v, deep=False, depth=0):
         t = type(v)
         if t is I:
             return ("i", v.ty, st.itv[v.vid], v.vid in st.taint)
         if t is Fl:
             return ("f", v.lo, v.hi, v.nan)
         if t is Ag:
-            return ("a",) + tuple(self._sig(st, x) for x in v.f)
+            return ("a",) + tuple(self._sig(st, x, deep, depth + 1) for x in v.f)
+        if deep and depth < 4:
+            if t is Sq:
+                if v.head and len(v.head) > 8:
+                    raise Unsupported("not memoisable")
+                return ("s", self._sig(st, v.elem, deep, depth + 1) if v.elem is not BOT else "bot", st.itv[v.len.vid], v.data,
+                        tuple((k, self._sig(st, h, deep, depth + 1)) for k, h in sorted((v.head or {}).items())))
+            if t is En:
+                return ("e",) + tuple((k, tuple(self._sig(st, x, deep, depth + 1) for x in p)) for k, p in sorted(v.vs.items()))
+            if t is Pt and v.key is not None:
+                tgt = self.load(st, v.key, v.proj)
+                return ("p", v.mut, self._sig(st, tgt, deep, depth + 1))
         raise Unsupported("not memoisable")
 
-    def snapshot(self, st, v):
-        out = {}
+    def snapshot(self, st, v, out=None):
+        out = {} if out is None else out
         for _, i in iter_ints(v):
             out[i.vid] = (st.itv[i.vid], i.vid in st.taint)
         return out
